@@ -1,10 +1,12 @@
 ------------------------------ MODULE BlotsEval ------------------------------
 (***************************************************************************)
-(* A big-step reference evaluator for the core of Blots: numbers, lists,   *)
-(* arithmetic, comparison, conditionals, lambdas with required / optional  *)
-(* / rest parameters, calls, do-blocks, assignment, via / where / into and *)
-(* the higher-order built-ins - with the scoping rules the properties      *)
-(* C03, C04 and C13 state:                                                 *)
+(* A big-step reference evaluator for the core of Blots: numbers, strings, *)
+(* booleans, null, lists and records (static / shorthand / computed keys,  *)
+(* spreads), every broadcasting operator of BlotsOps, unary minus and not, *)
+(* index and field access, conditionals, lambdas with required / optional  *)
+(* / rest parameters, calls with spread arguments, do-blocks, assignment,  *)
+(* via / where / into and the higher-order built-ins - with the scoping    *)
+(* rules the properties C03, C04 and C13 state:                            *)
 (*   - a name visible anywhere in the scope chain cannot be assigned       *)
 (*     (checked before AND after evaluating the right-hand side);          *)
 (*     direct statements of a do-block may shadow;                         *)
@@ -44,6 +46,17 @@ EDo(ss, r)     == [k |-> "do", ss |-> ss, r |-> r]
 EAsg(n, e)     == [k |-> "asg", n |-> n, e |-> e]
 EIf(c, t, e)   == [k |-> "if", c |-> c, t |-> t, e |-> e]
 EIdx(e, i)     == [k |-> "idx", e |-> e, i |-> i]
+ELit(v)        == [k |-> "lit", v |-> v]                          \* a string, boolean or null literal
+EUn(o, e)      == [k |-> "un", o |-> o, e |-> e]                  \* o: "neg" | "not"
+EDot(e, f)     == [k |-> "dot", e |-> e, f |-> f]                 \* f: the key as a character-index sequence
+ESpread(e)     == [k |-> "spread", e |-> e]                       \* only as a list item or a call argument
+ERec(es)       == [k |-> "rec", es |-> es]                        \* entries, in source order:
+RStatic(key, e) == [m |-> "static", key |-> key, e |-> e]         \*   key: e
+RShort(n)       == [m |-> "short", n |-> n]                       \*   n          (shorthand for n: n)
+RSpreadE(e)     == [m |-> "spread", e |-> e]                      \*   ...e
+RDyn(ke, e)     == [m |-> "dyn", ke |-> ke, e |-> e]              \*   [ke]: e
+\* the characters of the one-letter names, as indexes into the harness ALPHABET (sorted by code point)
+NameCs(n) == CASE n = "a" -> <<12>> [] n = "b" -> <<13>> [] n = "c" -> <<14>> [] n = "z" -> <<15>>
 Prm(n, m)      == [n |-> n, m |-> m]
 Req(n)         == Prm(n, "req")
 
@@ -60,6 +73,7 @@ SetTop(env, n, v) == [env EXCEPT ![Len(env)][n] = v]
 RECURSIVE FreeVars(_, _)
 RECURSIVE FreeVarsSeq(_, _)
 RECURSIVE FreeVarsDo(_, _, _)
+RECURSIVE FreeVarsRec(_, _)
 FreeVarsSeq(es, bound) == IF es = <<>> THEN {} ELSE FreeVars(Head(es), bound) \cup FreeVarsSeq(Tail(es), bound)
 \* in a do-block a direct assignment binds its name for the statements after it
 FreeVarsDo(ss, r, bound) ==
@@ -78,6 +92,17 @@ FreeVars(e, bound) ==
     [] e.k = "asg"  -> FreeVars(e.e, bound)
     [] e.k = "if"   -> FreeVars(e.c, bound) \cup FreeVars(e.t, bound) \cup FreeVars(e.e, bound)
     [] e.k = "idx"  -> FreeVars(e.e, bound) \cup FreeVars(e.i, bound)
+    [] e.k = "lit"  -> {}
+    [] e.k \in {"un", "dot", "spread"} -> FreeVars(e.e, bound)
+    [] e.k = "rec"  -> FreeVarsRec(e.es, bound)
+FreeVarsRec(es, bound) ==
+  IF es = <<>> THEN {}
+  ELSE LET x == Head(es) IN
+       (CASE x.m = "static" -> FreeVars(x.e, bound)
+          [] x.m = "short"  -> IF x.n \in bound \/ x.n \notin Names THEN {} ELSE {x.n}
+          [] x.m = "spread" -> FreeVars(x.e, bound)
+          [] x.m = "dyn"    -> FreeVars(x.ke, bound) \cup FreeVars(x.e, bound))
+       \cup FreeVarsRec(Tail(es), bound)
 
 MkClosure(ps, b, env) ==
   LET fv == FreeVars(b, ParamNames(ps)) IN
@@ -114,15 +139,48 @@ Res(v, env) == [v |-> v, env |-> env]
 RECURSIVE Eval(_, _, _)
 RECURSIVE EvalSeq(_, _, _, _)
 RECURSIVE EvalDo(_, _, _, _)
+RECURSIVE EvalRec(_, _, _, _)
 RECURSIVE ApplyFn(_, _, _, _)
 RECURSIVE MapCb(_, _, _, _, _, _)
 RECURSIVE FoldCb(_, _, _, _, _, _)
 
-\* left-to-right evaluation of a sequence, threading the environment; first error wins
+\* what a spread contributes to a list or an argument list: the elements, the characters, or [key, value] pairs
+Flatten(v) == CASE IsList(v) -> v.xs
+                [] IsStr(v)  -> [i \in 1..Len(v.cs) |-> Str(<<v.cs[i]>>)]
+                [] IsRec(v)  -> [i \in 1..Len(v.ks) |-> List(<<Str(v.ks[i]), v.vs[i]>>)]
+\* left-to-right evaluation of list items / call arguments, threading the environment; first error wins
 EvalSeq(es, env, d, acc) ==
   IF es = <<>> THEN Res(List(acc), env)
+  ELSE IF Head(es).k = "spread" THEN
+       LET r == Eval(Head(es).e, env, d) IN
+       IF IsE(r.v) THEN r
+       ELSE IF ~(IsList(r.v) \/ IsStr(r.v) \/ IsRec(r.v)) THEN Res(ErrC("type"), r.env)
+       ELSE EvalSeq(Tail(es), r.env, d, acc \o Flatten(r.v))
   ELSE LET r == Eval(Head(es), env, d) IN
        IF IsE(r.v) THEN r ELSE EvalSeq(Tail(es), r.env, d, Append(acc, r.v))
+
+\* a record literal: entries in order; a repeated key keeps its first position and takes the last value
+PutKey(acc, k, v) == LET p == KeyPos(acc.ks, k, 1) IN
+                     IF p = 0 THEN Rec(Append(acc.ks, k), Append(acc.vs, v)) ELSE Rec(acc.ks, [acc.vs EXCEPT ![p] = v])
+EvalRec(es, env, d, acc) ==
+  IF es = <<>> THEN Res(acc, env)
+  ELSE LET x == Head(es) IN
+       CASE x.m = "static" -> LET r == Eval(x.e, env, d) IN
+                              IF IsE(r.v) THEN r ELSE EvalRec(Tail(es), r.env, d, PutKey(acc, x.key, r.v))
+         [] x.m = "short"  -> LET v == IF x.n \in Names THEN Lookup(env, x.n) ELSE UNB IN
+                              IF v = UNB THEN Res(ErrC("unbound"), env) ELSE EvalRec(Tail(es), env, d, PutKey(acc, NameCs(x.n), v))
+         [] x.m = "dyn"    -> LET kr == Eval(x.ke, env, d) IN
+                              IF IsE(kr.v) THEN kr ELSE IF ~IsStr(kr.v) THEN Res(ErrC("type"), kr.env)
+                              ELSE LET r == Eval(x.e, kr.env, d) IN
+                                   IF IsE(r.v) THEN r ELSE EvalRec(Tail(es), r.env, d, PutKey(acc, kr.v.cs, r.v))
+         [] x.m = "spread" -> LET r == Eval(x.e, env, d) IN
+                              IF IsE(r.v) THEN r
+                              ELSE IF IsRec(r.v) THEN EvalRec(Tail(es), r.env, d, RecInsertAll(acc, r.v.ks, r.v.vs))
+                              ELSE IF IsList(r.v) \/ IsStr(r.v) THEN      \* keys "0", "1", ..: the model names the first two
+                                   LET xs == Flatten(r.v) IN
+                                   IF Len(xs) > 2 THEN Res(Unk, r.env)
+                                   ELSE EvalRec(Tail(es), r.env, d, RecInsertAll(acc, [i \in 1..Len(xs) |-> IF i = 1 THEN <<5>> ELSE <<6>>], xs))
+                              ELSE Res(ErrC("type"), r.env)
 
 \* a function takes the name of the first binding it is given; binding it again (an alias) leaves it as it is
 NameIt(v, n) == IF IsFn(v) /\ v.name = "" THEN [v EXCEPT !.name = n] ELSE v
@@ -186,8 +244,8 @@ ApplyFn(f, args, env, d) ==
                                 ELSE LET rr == IF Len(args) = 1 THEN RangeOf(0, args[1].n) ELSE RangeOf(args[1].n, args[2].n) IN
                                      IF IsErr(rr) THEN ErrC("type") ELSE rr
 
-ScalarBin(o, a, b) == LET op == CASE o = "add" -> "add" [] o = "sub" -> "sub" [] o = "mul" -> "mul" [] o = "eq" -> "eq" [] o = "lt" -> "lt"
-                          x == BinOp(op, a, b) IN
+\* every broadcasting operator: the law of BlotsOps (both operands are evaluated first, also for && || ??)
+ScalarBin(o, a, b) == LET x == BinOp(o, a, b) IN
                       IF IsErr(x) THEN ErrC("type") ELSE x
 
 Eval(e, env, d) ==
@@ -229,5 +287,15 @@ Eval(e, env, d) ==
                        IF IsE(a.v) THEN a
                        ELSE LET i == Eval(e.i, a.env, d) IN
                             IF IsE(i.v) THEN i
-                            ELSE Res(IF IsList(a.v) /\ IsNum(i.v) /\ i.v.k = "fin" THEN Index(a.v, i.v.n) ELSE ErrC("type"), i.env)
+                            ELSE Res(IF (IsList(a.v) \/ IsStr(a.v)) /\ IsNum(i.v) /\ i.v.k = "fin" THEN Index(a.v, i.v.n)
+                                     ELSE IF IsRec(a.v) /\ IsStr(i.v) THEN Field(a.v, i.v.cs)
+                                     ELSE ErrC("type"), i.env)
+    [] e.k = "lit"  -> Res(e.v, env)
+    [] e.k = "un"   -> LET a == Eval(e.e, env, d) IN
+                       IF IsE(a.v) THEN a
+                       ELSE Res(IF e.o = "neg" THEN (IF IsNum(a.v) THEN Neg(a.v) ELSE ErrC("type"))
+                                ELSE (IF IsBool(a.v) THEN Bool(~a.v.b) ELSE ErrC("type")), a.env)
+    [] e.k = "dot"  -> LET a == Eval(e.e, env, d) IN
+                       IF IsE(a.v) THEN a ELSE Res(IF IsRec(a.v) THEN Field(a.v, e.f) ELSE ErrC("type"), a.env)
+    [] e.k = "rec"  -> EvalRec(e.es, env, d, Rec(<<>>, <<>>))
 =============================================================================
